@@ -80,6 +80,21 @@ def ev(e, env, opaque):
         left = ev(e.left, env, opaque)
         res = True
         for op, c in zip(e.ops, e.comparators):
+            if isinstance(op, (ast.Is, ast.IsNot)) and isinstance(c, ast.Constant) and c.value is None:
+                if left is TOP:
+                    return TOP
+                r = isinstance(op, ast.IsNot)          # a number is never None
+                if not r:
+                    return False
+                continue
+            if isinstance(op, (ast.In, ast.NotIn)) and isinstance(c, (ast.Tuple, ast.List, ast.Set)):
+                members = [ev(x, env, opaque) for x in c.elts]
+                if left is TOP or any(m is TOP for m in members):
+                    return TOP
+                r = (left in members) == isinstance(op, ast.In)
+                if not r:
+                    return False
+                continue
             right = ev(c, env, opaque)
             if left is TOP or right is TOP:
                 if '__assume__' in opaque:
@@ -129,6 +144,8 @@ def ev(e, env, opaque):
             return TOP
         if e.func.id == 'int' and len(args) == 1:
             return int(args[0])
+        if e.func.id == 'float' and len(args) == 1:
+            return args[0] if isinstance(args[0], (int, bool)) else float(args[0])
         if e.func.id in ('min', 'max') and len(args) >= 2:
             return (min if e.func.id == 'min' else max)(args)
         if e.func.id == 'abs' and len(args) == 1:
